@@ -6,7 +6,10 @@
     polygon_centroid  -> polygonCentroid  (as written, n ≥ 3 branch and n < 3 branch)
     in_polygon        -> inPolygon        (as written: crossing number relative to polygon[0], tolerance 1e-6)
 -/
+import PyTough.Py.Str
+import PyTough.Model.Names
 namespace Model.Geo
+open Py
 
 abbrev Pt := Rat × Rat
 
@@ -72,4 +75,555 @@ def inPolygon (pos : Pt) (poly : List Pt) : Bool :=
            decide (v.1 < p1.1 + (v.2 - p1.2) * d.1 / d.2))).length
     n % 2 == 1
 
+
+/-! ## The geometry heap
+
+Python objects have identity: the same column object sits in `columnlist`, in the `column` dict,
+in the `column` sets of its nodes, in the `neighbour` sets of other columns and in two-element
+`column` lists of connections, and `rename_column` mutates it in place.  Objects are therefore
+records in append-only heaps (`Array`), referred to by index; lists, dicts and sets hold indices.
+
+A Python `set` of objects is a duplicate-free `List Nat`; where the code iterates over a set the
+model iterates in list (insertion) order — results are compared up to that order. -/
+
+abbrev Name := Str
+
+structure Node where
+  name : Name
+  pos : Pt
+  cols : List Nat            -- `node.column`
+  deriving Repr, Inhabited
+
+structure Column where
+  name : Name
+  nodes : List Nat           -- `col.node`
+  centre : Pt
+  centreSpecified : Bool
+  surface : Option Rat       -- `None` = default surface
+  area : Rat
+  numLayers : Int
+  nbrs : List Nat            -- `col.neighbour`
+  cons : List Nat            -- `col.connection`
+  deriving Repr, Inhabited
+
+structure Conn where
+  c0 : Nat
+  c1 : Nat
+  nodes : Option (Nat × Nat) -- `con.node` (`None` when the columns share no side)
+  deriving Repr, Inhabited
+
+structure Layer where
+  name : Name
+  bottom : Rat
+  centre : Rat
+  top : Rat
+  deriving Repr, Inhabited
+
+structure Well where
+  name : Name
+  pos : List (Rat × Rat × Rat)
+  deriving Repr, Inhabited
+
+/-- an insertion-ordered `dict` with keys `κ` and object values -/
+abbrev Dict (κ : Type) := List (κ × Nat)
+
+namespace Dict
+variable {κ : Type} [DecidableEq κ]
+def get? (d : Dict κ) (k : κ) : Option Nat := (d.find? (fun p => p.1 = k)).map (·.2)
+def contains (d : Dict κ) (k : κ) : Bool := d.any (fun p => p.1 = k)
+/-- `d[k] = v`: an existing key keeps its position -/
+def set : Dict κ → κ → Nat → Dict κ
+  | [], k, v => [(k, v)]
+  | (k', v') :: r, k, v => if k' = k then (k, v) :: r else (k', v') :: set r k v
+/-- `del d[k]` (the caller has checked that `k` is present) -/
+def del (d : Dict κ) (k : κ) : Dict κ := d.filter (fun p => p.1 ≠ k)
+def keys (d : Dict κ) : List κ := d.map (·.1)
+end Dict
+
+structure Geo where
+  convention : Nat := 0
+  atmosType : Nat := 0
+  N : Array Node := #[]
+  C : Array Column := #[]
+  K : Array Conn := #[]
+  L : Array Layer := #[]
+  W : Array Well := #[]
+  nodelist : List Nat := []
+  nodeD : Dict Name := []
+  columnlist : List Nat := []
+  columnD : Dict Name := []
+  connlist : List Nat := []
+  connD : Dict (Name × Name) := []
+  layerlist : List Nat := []
+  layerD : Dict Name := []
+  welllist : List Nat := []
+  wellD : Dict Name := []
+  blockNames : List Name := []            -- `block_name_list` (`block_name_index` is `dict(enumerate)` of it)
+  connNames : List (Name × Name) := []    -- `block_connection_name_list`
+  deriving Inhabited
+
+namespace Geo
+
+@[inline] def node (g : Geo) (i : Nat) : Node := g.N[i]!
+@[inline] def col (g : Geo) (i : Nat) : Column := g.C[i]!
+@[inline] def con (g : Geo) (i : Nat) : Conn := g.K[i]!
+@[inline] def lay (g : Geo) (i : Nat) : Layer := g.L[i]!
+@[inline] def well (g : Geo) (i : Nat) : Well := g.W[i]!
+
+def updNode (g : Geo) (i : Nat) (f : Node → Node) : Geo := { g with N := g.N.modify i f }
+def updCol (g : Geo) (i : Nat) (f : Column → Column) : Geo := { g with C := g.C.modify i f }
+def updCon (g : Geo) (i : Nat) (f : Conn → Conn) : Geo := { g with K := g.K.modify i f }
+def updLay (g : Geo) (i : Nat) (f : Layer → Layer) : Geo := { g with L := g.L.modify i f }
+
+/-- `s.add(x)` -/
+def setAdd (s : List Nat) (x : Nat) : List Nat := if s.contains x then s else s ++ [x]
+/-- `s.remove(x)` raises `KeyError` when `x` is absent -/
+def setRemove (s : List Nat) (x : Nat) : Except Exc (List Nat) :=
+  if s.contains x then .ok (s.erase x) else .error .keyError
+/-- `l.remove(x)` raises `ValueError` when `x` is absent -/
+def listRemove (l : List Nat) (x : Nat) : Except Exc (List Nat) :=
+  if l.contains x then .ok (l.erase x) else .error .valueError
+
+def colnameLength (g : Geo) : Nat := Names.colnameLength g.convention
+def layernameLength (g : Geo) : Nat := Names.layernameLength g.convention
+
+def polygon (g : Geo) (nodes : List Nat) : List Pt := nodes.map fun i => (g.node i).pos
+
+/-! ### `column.__init__` -/
+
+/-- `column(name, node, centre, surface)`: centre = centroid when not given, area by the shoelace
+    formula, node list reversed when the area is negative; empty neighbour / connection sets,
+    `num_layers = 0`.  `none`: the centroid of a degenerate polygon is nan in numpy — outside the model. -/
+def mkColumn (g : Geo) (name : Name) (nodes : List Nat) (centre : Option Pt) (surface : Option Rat) :
+    Option Column :=
+  let poly := g.polygon nodes
+  let ctr : Option Pt := match centre with
+    | some c => some c
+    | none => polygonCentroid poly
+  match ctr with
+  | none => none
+  | some c =>
+    let a := polygonArea poly
+    some { name, nodes := if a < 0 then nodes.reverse else nodes, centre := c,
+           centreSpecified := centre.isSome, surface, area := if a < 0 then -a else a,
+           numLayers := 0, nbrs := [], cons := [] }
+
+/-! ### `add_*` / `delete_*` -/
+
+/-- `add_node(node(name, pos))` -/
+def addNode (g : Geo) (name : Name) (pos : Pt) : Geo :=
+  if g.nodeD.contains name then g
+  else
+    let i := g.N.size
+    { g with N := g.N.push { name, pos, cols := [] }, nodelist := g.nodelist ++ [i], nodeD := g.nodeD.set name i }
+
+/-- `delete_node(nodename)` -/
+def deleteNode (g : Geo) (name : Name) : Except Exc Geo :=
+  match g.nodeD.get? name with
+  | none => .error .keyError
+  | some i => do
+    let g1 := { g with nodeD := g.nodeD.del name }
+    let l ← listRemove g1.nodelist i
+    pure { g1 with nodelist := l }
+
+/-- a column object exists (Python heap) before it is handed to `add_column` -/
+def allocColumn (g : Geo) (c : Column) : Geo × Nat := ({ g with C := g.C.push c }, g.C.size)
+
+/-- `add_column(col)` for the column object `i` -/
+def registerColumn (g : Geo) (i : Nat) : Geo :=
+  let c := g.col i
+  if g.columnD.contains c.name then g
+  else
+    let g1 := { g with columnlist := g.columnlist ++ [i], columnD := g.columnD.set c.name i }
+    c.nodes.foldl (fun g n => g.updNode n fun nd => { nd with cols := setAdd nd.cols i }) g1
+
+/-- `add_column(col)` for a freshly constructed column record -/
+def addColumnRec (g : Geo) (c : Column) : Geo :=
+  let (g, i) := g.allocColumn c
+  g.registerColumn i
+
+/-- `add_column(column(name, nodes, centre, surface))`; `num_layers` as the caller then sets it -/
+def addColumn (g : Geo) (name : Name) (nodes : List Nat) (centre : Option Pt) (surface : Option Rat)
+    (numLayers : Int := 0) : Except Exc Geo :=
+  match g.mkColumn name nodes centre surface with
+  | none => .error .zeroDivision
+  | some c => .ok (g.addColumnRec { c with numLayers })
+
+/-- `connection_nodes(cols)`: the first side of `cols[a]` whose two nodes both belong to `cols[b]`,
+    in the order of the first column of the connection -/
+def connectionNodes (g : Geo) (c0 c1 : Nat) : Option (Nat × Nat) :=
+  let n0 := (g.col c0).nodes
+  let n1 := (g.col c1).nodes
+  let find (a b : List Nat) : Option (Nat × Nat) :=
+    ((cyc a).find? fun e => b.contains e.1 && b.contains e.2)
+  if n0.length > 2 then find n0 n1
+  else if n1.length > 2 then (find n1 n0).map fun e => (e.2, e.1)
+  else none
+
+/-- `add_connection(connection([col0, col1]))`: registers the connection, computes its node pair, adds it
+    to both columns' connection sets and makes the two columns neighbours -/
+def addConnection (g : Geo) (c0 c1 : Nat) : Geo :=
+  let names := ((g.col c0).name, (g.col c1).name)
+  if g.connD.contains names then g
+  else
+    let i := g.K.size
+    let g1 := { g with K := g.K.push { c0, c1, nodes := g.connectionNodes c0 c1 },
+                       connlist := g.connlist ++ [i], connD := g.connD.set names i }
+    let g2 := [c0, c1].foldl (fun g c => g.updCol c fun cl => { cl with cons := setAdd cl.cons i }) g1
+    let g3 := g2.updCol c0 fun cl => { cl with nbrs := setAdd cl.nbrs c1 }
+    g3.updCol c1 fun cl => { cl with nbrs := setAdd cl.nbrs c0 }
+
+/-- `col.is_against(other)`: they share more than one node -/
+def isAgainst (g : Geo) (a b : Nat) : Bool :=
+  (((g.col a).nodes.eraseDups).filter fun n => (g.col b).nodes.contains n).length > 1
+
+/-- `connects(col1, col2)` -/
+def connects (g : Geo) (a b : Nat) : Bool :=
+  g.connlist.any fun k => let c := g.con k; (c.c0 = a || c.c1 = a) && (c.c0 = b || c.c1 = b)
+
+/-- `delete_connection(colnames)`; the two columns stop being neighbours unless another connection
+    of the first column still joins them (`set.discard`: no error when absent) -/
+def deleteConnection (g : Geo) (names : Name × Name) : Except Exc Geo :=
+  match g.connD.get? names with
+  | none => .error .keyError
+  | some i => do
+    let k := g.con i
+    let g1 ← [k.c0, k.c1].foldlM (fun (g : Geo) c => do
+      let s ← setRemove (g.col c).cons i
+      pure (g.updCol c fun cl => { cl with cons := s })) g
+    let still := (g1.col k.c0).cons.any fun j => (g1.con j).c0 = k.c1 || (g1.con j).c1 = k.c1
+    let g1 := if still then g1 else
+      (g1.updCol k.c0 fun cl => { cl with nbrs := cl.nbrs.erase k.c1 }).updCol k.c1 fun cl =>
+        { cl with nbrs := cl.nbrs.erase k.c0 }
+    let g2 := { g1 with connD := g1.connD.del names }
+    let l ← listRemove g2.connlist i
+    pure { g2 with connlist := l }
+
+/-- `delete_column(colname)` -/
+def deleteColumn (g : Geo) (name : Name) : Except Exc Geo :=
+  match g.columnD.get? name with
+  | none => .error .keyError
+  | some i => do
+    let cons := g.connlist.filter fun k => (g.con k).c0 = i || (g.con k).c1 = i
+    let g1 ← cons.foldlM (fun (g : Geo) k =>
+      g.deleteConnection ((g.col (g.con k).c0).name, (g.col (g.con k).c1).name)) g
+    let g2 ← (g1.col i).nbrs.foldlM (fun (g : Geo) nb => do
+      let s ← setRemove (g.col nb).nbrs i
+      pure (g.updCol nb fun cl => { cl with nbrs := s })) g1
+    let g3 ← (g2.col i).nodes.foldlM (fun (g : Geo) n => do
+      let s ← setRemove (g.node n).cols i
+      pure (g.updNode n fun nd => { nd with cols := s })) g2
+    let g4 := { g3 with columnD := g3.columnD.del name }
+    let l ← listRemove g4.columnlist i
+    pure { g4 with columnlist := l }
+
+def addLayer (g : Geo) (l : Layer) : Geo :=
+  if g.layerD.contains l.name then g
+  else
+    let i := g.L.size
+    { g with L := g.L.push l, layerlist := g.layerlist ++ [i], layerD := g.layerD.set l.name i }
+
+def deleteLayer (g : Geo) (name : Name) : Except Exc Geo :=
+  match g.layerD.get? name with
+  | none => .error .keyError
+  | some i => do
+    let g1 := { g with layerD := g.layerD.del name }
+    let l ← listRemove g1.layerlist i
+    pure { g1 with layerlist := l }
+
+def addWell (g : Geo) (w : Well) : Geo :=
+  if g.wellD.contains w.name then g
+  else
+    let i := g.W.size
+    { g with W := g.W.push w, welllist := g.welllist ++ [i], wellD := g.wellD.set w.name i }
+
+def deleteWell (g : Geo) (name : Name) : Except Exc Geo :=
+  match g.wellD.get? name with
+  | none => .error .keyError
+  | some i => do
+    let g1 := { g with wellD := g.wellD.del name }
+    let l ← listRemove g1.welllist i
+    pure { g1 with welllist := l }
+
+/-- `clear_layers()` -/
+def clearLayers (g : Geo) : Geo := { g with layerD := [], layerlist := [] }
+
+/-- `identify_neighbours()` -/
+def identifyNeighbours (g : Geo) : Geo :=
+  g.connlist.foldl (fun g k =>
+    let c := g.con k
+    let g := g.updCol c.c0 fun cl => { cl with nbrs := setAdd cl.nbrs c.c1 }
+    g.updCol c.c1 fun cl => { cl with nbrs := setAdd cl.nbrs c.c0 }) g
+
+/-! ### block and connection name lists -/
+
+/-- `col.surface > lay.bottom` (a `None` surface cannot be compared: `TypeError`) -/
+def surfaceAbove (c : Column) (l : Layer) : Except Exc Bool :=
+  match c.surface with
+  | none => .error .typeError
+  | some s => .ok (decide (s > l.bottom))
+
+def blockName (g : Geo) (lay col : Name) : Except Exc Name := Names.blockName g.convention lay col
+
+/-- the columns of `columnlist` with `col.surface > lay.bottom` -/
+def layerCols (g : Geo) (l : Layer) : Except Exc (List Nat) :=
+  g.columnlist.filterM fun c => surfaceAbove (g.col c) l
+
+/-- `setup_block_name_index()` (block order `None` / `'layer_column'`) -/
+def computeBlockNames (g : Geo) : Except Exc (List Name) :=
+  match g.layerlist with
+  | [] => .ok []
+  | l0 :: below => do
+    let top := (g.lay l0).name
+    let atm ← (if g.atmosType = 0 then do
+                 let b ← g.blockName top (Names.atmosphereColumnName g.convention)
+                 pure [b]
+               else if g.atmosType = 1 then
+                 g.columnlist.mapM fun c => g.blockName top (g.col c).name
+               else pure [])
+    let under ← below.mapM fun li => do
+      let cols ← g.layerCols (g.lay li)
+      cols.mapM fun c => g.blockName (g.lay li).name (g.col c).name
+    pure (atm ++ under.flatten)
+
+def setupBlockNames (g : Geo) : Except Exc Geo := do
+  let b ← g.computeBlockNames
+  pure { g with blockNames := b }
+
+/-- `setup_block_connection_name_index()`; `ilay` counts from 0 over `layerlist[1:]` -/
+def computeConnNames (g : Geo) : Except Exc (List (Name × Name)) :=
+  match g.layerlist with
+  | [] => .ok []
+  | l0 :: below => do
+    let per ← (List.range below.length).mapM fun ilay => do
+      let li := below.getD ilay 0
+      let lay := g.lay li
+      let layercols ← g.layerCols lay
+      let vert ← layercols.mapM fun c => do
+        let col := g.col c
+        let this ← g.blockName lay.name col.name
+        let toAtm := ilay = 0 || (match col.surface with | some s => decide (s ≤ lay.top) | none => false)
+        if toAtm then
+          if g.atmosType = 0 then
+            match g.blockNames.head? with
+            | some a => pure [(this, a)]
+            | none => throw Exc.indexError
+          else if g.atmosType = 1 then do
+            let a ← g.blockName (g.lay l0).name col.name
+            pure [(this, a)]
+          else pure []
+        else do
+          let above := g.lay ((l0 :: below).getD ilay 0)
+          let a ← g.blockName above.name col.name
+          pure [(this, a)]
+      let cons := g.connlist.filter fun k => layercols.contains (g.con k).c0 && layercols.contains (g.con k).c1
+      let horiz ← cons.mapM fun k => do
+        let a ← g.blockName lay.name (g.col (g.con k).c0).name
+        let b ← g.blockName lay.name (g.col (g.con k).c1).name
+        pure (a, b)
+      pure (vert.flatten ++ horiz)
+    pure per.flatten
+
+def setupConnNames (g : Geo) : Except Exc Geo := do
+  let b ← g.computeConnNames
+  pure { g with connNames := b }
+
+/-- the two `setup_*` calls that end most editing operations -/
+def setupNames (g : Geo) : Except Exc Geo := do
+  let g ← g.setupBlockNames
+  g.setupConnNames
+
+/-! ### renaming -/
+
+/-- `self.connection = dict([(tuple([c.name for c in con.column]), con) for con in self.connectionlist])` -/
+def rekeyConnections (g : Geo) : Geo :=
+  { g with connD := g.connlist.foldl (fun d k => d.set ((g.col (g.con k).c0).name, (g.col (g.con k).c1).name) k) [] }
+
+/-- `rename_column(old, new)` for lists (`zip` truncates).  A missing old name raises `KeyError`
+    out of the loop (it is not a `ValueError`); what was renamed before stays renamed. -/
+def renameColumn (g : Geo) (olds news : List Name) : Except Exc Geo := do
+  let g ← (olds.zip news).foldlM (fun (g : Geo) (p : Name × Name) =>
+    match g.columnD.get? p.1 with
+    | none => throw Exc.keyError
+    | some i =>
+      if !g.columnlist.contains i then throw Exc.valueError     -- caught below: `return False`
+      else
+        let g := g.updCol i fun c => { c with name := p.2 }
+        pure { g with columnD := (g.columnD.del p.1).set p.2 i }) g
+  g.rekeyConnections.setupNames
+
+/-- `rename_layer(old, new)` -/
+def renameLayer (g : Geo) (olds news : List Name) : Except Exc Geo := do
+  let g ← (olds.zip news).foldlM (fun (g : Geo) (p : Name × Name) =>
+    match g.layerD.get? p.1 with
+    | none => throw Exc.keyError
+    | some i =>
+      if !g.layerlist.contains i then throw Exc.valueError
+      else
+        let g := g.updLay i fun l => { l with name := p.2 }
+        pure { g with layerD := (g.layerD.del p.1).set p.2 i }) g
+  g.setupNames
+
+/-! ### layers and surfaces -/
+
+/-- `set_column_num_layers(col)` -/
+def setColumnNumLayers (g : Geo) (c : Nat) : Except Exc Geo :=
+  match (g.col c).surface with
+  | none => .error .typeError
+  | some s =>
+    let n := ((g.layerlist.drop 1).filter fun l => decide ((g.lay l).bottom < s)).length
+    .ok (g.updCol c fun cl => { cl with numLayers := n })
+
+/-- `col.surface = z; set_column_num_layers(col)` (what `read_surface` and `fit_surface` do per column) -/
+def setSurface (g : Geo) (c : Nat) (z : Rat) : Except Exc Geo :=
+  (g.updCol c fun cl => { cl with surface := some z }).setColumnNumLayers c
+
+/-- `identify_layer_tops()` -/
+def identifyLayerTops (g : Geo) : Geo :=
+  match g.layerlist with
+  | [] => g
+  | l0 :: rest =>
+    let g := g.updLay l0 fun l => { l with top := l.bottom }
+    ((l0 :: rest).zip rest).foldl (fun g p => g.updLay p.2 fun l => { l with top := (g.lay p.1).bottom }) g
+
+/-- `set_default_surface()` -/
+def setDefaultSurface (g : Geo) : Geo :=
+  match g.layerlist with
+  | [] => g
+  | l0 :: _ =>
+    let ground := (g.lay l0).bottom
+    g.columnlist.foldl (fun g' c => g'.updCol c fun cl =>
+      { cl with surface := some ground, numLayers := (g.layerD.length : Int) - 1 }) g
+
+/-- `column_surface_layer(col)`: `layerlist[num_layers - col.num_layers]` (negative indices wrap) -/
+def columnSurfaceLayer (g : Geo) (c : Nat) : Except Exc Nat :=
+  let n : Int := g.layerlist.length
+  let i : Int := (g.layerD.length : Int) - (g.col c).numLayers      -- `self.num_layers` is `len(self.layer)`
+  let j : Int := if i < 0 then i + n else i
+  if j < 0 ∨ j ≥ n then .error .indexError
+  else match g.layerlist[j.toNat]? with
+    | some l => .ok l
+    | none => .error .indexError
+
+/-- `snap_columns_to_layers(min_thickness, columns)` (`columns = []` means all) -/
+def snapColumnsToLayers (g : Geo) (minThickness : Rat) (cols : List Nat) : Except Exc Geo :=
+  if minThickness > 0 then do
+    let cols := if cols.isEmpty then g.columnlist else cols
+    let g ← cols.foldlM (fun (g : Geo) c => do
+      let tl ← g.columnSurfaceLayer c
+      match (g.col c).surface with
+      | none => throw Exc.typeError
+      | some s =>
+        if s - (g.lay tl).bottom < minThickness then
+          pure (g.updCol c fun cl => { cl with surface := some (g.lay tl).bottom, numLayers := cl.numLayers - 1 })
+        else pure g) g
+    g.setupNames
+  else .ok g
+
+/-- `snap_columns_to_nearest_layers(columns)` -/
+def snapColumnsToNearestLayers (g : Geo) (cols : List Nat) : Except Exc Geo := do
+  let cols := if cols.isEmpty then g.columnlist else cols
+  let g ← cols.foldlM (fun (g : Geo) c => do
+    let tl ← g.columnSurfaceLayer c
+    match (g.col c).surface with
+    | none => throw Exc.typeError
+    | some s =>
+      if s > (g.lay tl).centre then
+        pure (g.updCol c fun cl => { cl with surface := some (g.lay tl).top })
+      else
+        pure (g.updCol c fun cl => { cl with surface := some (g.lay tl).bottom, numLayers := cl.numLayers - 1 })) g
+  g.setupNames
+
+/-- `right_justified_names`: `all(blk[0:3] == blk[0:3].rjust(3) for blk in block_name_list)` -/
+def rightJustifiedNames (g : Geo) : Bool :=
+  g.blockNames.all fun b => slice b 0 3 == rjust (slice b 0 3) 3
+
+/-- `add_layers(thicknesses, top_elevation, justify, chars, spaces)` with the default alphabet -/
+def addLayers (g : Geo) (thicknesses : List Rat) (top : Rat) (left : Bool) : Except Exc Geo := do
+  let chars := Names.uniqstring "abcdefghijklmnopqrstuvwxyz".toList
+  let g := g.clearLayers
+  let surf := Names.surfaceLayerName g.convention
+  let g := g.addLayer { name := surf, bottom := top, centre := top, top := 0 }
+  let (g, _, _) ← thicknesses.foldlM (fun (st : Geo × Rat × Nat) t => do
+    let (g, z, num) := st
+    let z := z - t
+    let centre := z + (1/2) * t
+    let (name, num) ← Names.nextLayerName g.convention left chars true surf 3 num
+    pure (g.addLayer { name, bottom := z, centre, top := 0 }, z, num)) (g, top, 0)
+  pure g.identifyLayerTops
+
+/-- `copy_layers_from(geo)`: the other geometry's layers, deep-copied in order -/
+def copyLayersFrom (g : Geo) (layers : List Layer) : Except Exc Geo := do
+  let g := layers.foldl addLayer g.clearLayers
+  let g ← g.columnlist.foldlM (fun (g : Geo) c => g.setColumnNumLayers c) g
+  g.setupNames
+
+/-- `refine_layers(layers, factor)` (`layers = []` means all; layer names regenerated) -/
+def refineLayers (g : Geo) (layers : List Name) (factor : Nat) : Except Exc Geo := do
+  let sel ← (if layers.isEmpty then pure g.layerlist
+             else layers.mapM fun n => match g.layerD.get? n with
+               | some i => pure i
+               | none => throw Exc.keyError)
+  match g.layerlist with
+  | [] => throw Exc.indexError
+  | l0 :: below =>
+    if factor = 0 then throw Exc.zeroDivision
+    let topElevation := (g.lay l0).top
+    let atmName := (g.lay l0).name
+    let thicknesses := below.flatMap fun l =>
+      let t := (g.lay l).top - (g.lay l).bottom
+      if sel.contains l then List.replicate factor (t / factor) else [t]
+    let left := !g.rightJustifiedNames
+    let g ← g.clearLayers.addLayers thicknesses topElevation left
+    let g ← (match g.layerlist with
+             | [] => throw Exc.indexError
+             | n0 :: _ => g.renameLayer [(g.lay n0).name] [atmName])
+    let g ← g.columnlist.foldlM (fun (g : Geo) c => g.setColumnNumLayers c) g
+    g.setupNames
+
+/-! ### rigid motions -/
+
+/-- `translate(shift)` (wells optionally) -/
+def translate (g : Geo) (dx dy dz : Rat) (wells : Bool) : Geo :=
+  let g := g.nodelist.foldl (fun g n => g.updNode n fun nd => { nd with pos := Pt.add nd.pos (dx, dy) }) g
+  let g := g.columnlist.foldl (fun g c => g.updCol c fun cl =>
+    { cl with centre := Pt.add cl.centre (dx, dy), surface := cl.surface.map (· + dz) }) g
+  let g := g.layerlist.foldl (fun g l => g.updLay l fun la =>
+    { la with top := la.top + dz, bottom := la.bottom + dz, centre := la.centre + dz }) g
+  if wells then
+    { g with W := g.welllist.foldl (fun W w => W.modify w fun wl =>
+        { wl with pos := wl.pos.map fun p => (p.1 + dx, p.2.1 + dy, p.2.2 + dz) }) g.W }
+  else g
+
+/-- the map `x ↦ R (x - c) + c` with `R = [[cos, sin], [-sin, cos]]` (clockwise rotation) -/
+def rot (cs sn : Rat) (c : Pt) (x : Pt) : Pt :=
+  let d := Pt.sub x c
+  (cs * d.1 + sn * d.2 + c.1, -sn * d.1 + cs * d.2 + c.2)
+
+/-- `mulgrid.centre`: area-weighted average of the column centres; with no column it is `None` and
+    `rotation` then turns about the origin; `none` here = division by a zero total area (nan in numpy) -/
+def gridCentre (g : Geo) : Option Pt :=
+  let a := sumRat (g.columnlist.map fun c => (g.col c).area)
+  if g.columnD.isEmpty then some (0, 0)
+  else if a = 0 then none
+  else
+    let s := (g.columnlist.map fun c => Pt.smul (g.col c).area (g.col c).centre).foldr Pt.add (0, 0)
+    some (Pt.smul (1 / a) s)
+
+/-- `rotate(angle, centre)`, the angle given by its cosine and sine -/
+def rotate (g : Geo) (cs sn : Rat) (centre : Option Pt) (wells : Bool) : Except Exc Geo :=
+  let c := match centre with
+    | some c => some c
+    | none => g.gridCentre
+  match c with
+  | none => .error .typeError
+  | some c =>
+    let g := g.nodelist.foldl (fun g n => g.updNode n fun nd => { nd with pos := rot cs sn c nd.pos }) g
+    let g := g.columnlist.foldl (fun g k => g.updCol k fun cl => { cl with centre := rot cs sn c cl.centre }) g
+    .ok (if wells then
+      { g with W := g.welllist.foldl (fun W w => W.modify w fun wl =>
+          { wl with pos := wl.pos.map fun p => let q := rot cs sn c (p.1, p.2.1); (q.1, q.2, p.2.2) }) g.W }
+    else g)
+
+end Geo
 end Model.Geo
